@@ -294,6 +294,14 @@ func runC03(r *ev.Run) {
 				}
 			}
 		}
+		if ci%4 == 1 {
+			// the first operations on a fresh, EMPTY index: search, Flush, Remove of an unknown id
+			probe()
+			idx.Flush()
+			idx.Remove(ids.absent())
+			probe()
+			r.Count("cases:started-with-operations-on-the-empty-index", 1)
+		}
 		nOps := 10 + rng.IntN(60)
 		lastText := map[uint32]string{}
 		for op := 0; op < nOps; op++ {
@@ -357,6 +365,13 @@ func runC03(r *ev.Run) {
 				m.flush()
 				flushes++
 				r.Count("ops:flush", 1)
+				if rng.IntN(3) == 0 { // idempotent
+					if err := idx.Flush(); err != nil {
+						rep("bm25.flush-error", "second Flush in a row: "+err.Error())
+					}
+					hist = append(hist, textOp{"flush", 0, ""})
+					r.Count("ops:flush-twice-in-a-row", 1)
+				}
 			default:
 				id := ids.absent()
 				hist = append(hist, textOp{"remove-absent", id, ""})
